@@ -345,6 +345,8 @@ inductive Stmt where
   | pyjob (name : Option Str)
   /-- `j.call(f, *args)` on a PythonJob with resource arguments -/
   | pycall (j : Nat) (args : List PyArg)
+  /-- `j.name = …` (also `j.always_run()`, `j.image(…)`, `j.attributes = …`: what a user may set after the fact) -/
+  | rename (j : Nat) (name : Option Str)
   deriving Repr
 
 def token (n : Nat) : Str := ['t', 'k'] ++ Nat.toDigits 10 n
@@ -574,6 +576,10 @@ def step (st : St) : Stmt → Except Err St
         | .error e => .error e
         | .ok st2 => .ok (st2.updJob j fun js => { js with calls := js.calls ++ [argsR] })
     else .error .notDsl
+  | .rename j _ =>
+    -- `_dirname` was fixed in `Job.__init__` from the name the job was created with: a later `j.name = …` changes the
+    -- `name` attribute submitted with the job and nothing else
+    if j < st.nJobs then .ok st else .error .notDsl
   | .out r dest =>
     match resolve st r with
     | .error e => .error e
